@@ -598,6 +598,24 @@ Definition expected_delta (o : Op) (k : Key) : Z :=
   end.
 Definition pos_keys (pre post : State) : list Key :=
   fold_right (fun k acc => if key_in k acc then acc else k :: acc) [] (map fst (delegations pre) ++ map fst (delegations post)).
+(* the 0.01-share tolerance of ValidateDelegatedAmount: when the shares wanted for the amount are
+   within 0.01 share of what the position holds, the WHOLE position is removed although only the
+   amount is paid out.  With shares worth more than 100 tokens each (ratio below 0.01 after
+   slashes / take rate) the remainder is not dust (F-C04-3). *)
+Definition rounder_sweep (pre : State) (o : Op) : bool :=
+  match o with
+  | OUndelegate del v dn amt | ORedelegate del v _ dn amt =>
+    match kget (delegations pre) [del; v; dn], kget (assets pre) [dn] with
+    | Some d, Some a =>
+      match del_shares_from_tokens (vinfo_or_empty pre v) a amt with
+      | Some upd => (Z.abs (d_shares d - upd) <? ROUNDER) && (amt + 2 <? reported_balance pre [del; v; dn])
+      | None => false
+      end
+    | _, _ => false
+    end
+  | _ => false
+  end.
+
 Definition check_C04 (pre : State) (o : Op) (c : Z) (post : State) : list Z :=
   match o with
   | OClaim _ _ _ =>
@@ -630,6 +648,7 @@ Definition check_C04 (pre : State) (o : Op) (c : Z) (post : State) : list Z :=
                                     | None => false end)
                           (match o with ODelegate _ v _ _ => [v] | ORedelegate _ _ dst _ _ => [dst] | _ => [] end)
                then [31]
+          else if rounder_sweep pre o then [33]
           else [3])
     else []
   | _ => []
